@@ -1,5 +1,6 @@
 import RsMatterVerif.Lemmas.Tlv
 import RsMatterVerif.Lemmas.TlvRound
+import RsMatterVerif.Lemmas.TlvSchema
 /-!
 # C16 — the TLV codec round-trips every value and rejects every malformed input safely
 
@@ -258,5 +259,66 @@ example : reencode [0x15, 0x24, 0x01, 0x05, 0x18, 0xff, 0xff] = .ok [0x15, 0x24,
 example : reencode (encode (.cont .anon .array (.cons (.leaf .anon (.str .w8 [7])) .nil))) =
     .ok (encode (.cont .anon .array (.cons (.leaf .anon (.str .w8 [7])) .nil))) := by decide
 
+
+/-! ## 7. derived structures (schema-directed model of `#[derive(FromTLV, ToTLV)]`) -/
+section derived
+open TlvSchema
+
+def itemTag : Item → Nat
+  | .field f => f.tag
+  | .group tag _ _ => tag
+
+/-- well-formed schema: pairwise different context tags below 256, also inside nested structures -/
+def SchemaWf (s : Schema) : Prop :=
+  (s.items.map itemTag).Nodup ∧
+  ∀ i ∈ s.items, itemTag i < 256 ∧
+    match i with
+    | .field _ => True
+    | .group _ _ fs => (fs.map (·.tag)).Nodup ∧ ∀ f ∈ fs, f.tag < 256
+
+/-- the full statement for the schema language (including nested structures): **not proved** -/
+def struct_roundtrip_full : Prop :=
+  ∀ (s : Schema) (slots : List Slot) (v : Value), SchemaWf s → toValue s slots = some v →
+    decodeStruct s (encode v) = .ok slots
+
+/-- **proved part**: every schema without nested structures.  For fields of type
+`u8/u16/u32/u64/bool`, optional and/or nullable, with pairwise different tags `< 256`, in a struct,
+list or array container: the derived decoder applied to the bytes of the derived encoder returns
+the encoded field values (`Option::None` stays absent, `Nullable` null stays null, integers come
+back whatever width the writer chose). -/
+theorem struct_roundtrip_partial (k : Kind) (fs : List Field) (slots : List Slot) (v : Value)
+    (ht : ∀ f ∈ fs, f.tag < 256) (hnd : (fs.map (·.tag)).Nodup)
+    (hv : toValue ⟨k, fs.map .field⟩ slots = some v) :
+    decodeStruct ⟨k, fs.map .field⟩ (encode v) = .ok slots :=
+  struct_roundtrip_flat k fs slots v ht hnd hv
+
+/-- the seven real wire structures of stream `s` without nesting satisfy the hypotheses, so the
+theorem applies to the schemas the correspondence check ties to `AttrPath`, `CmdPath`, `EventPath`,
+`ClusterPath`, `EventFilter`, `TimedReq`, `Target` -/
+theorem real_flat_schemas :
+    ∀ name ∈ ["AttrPath", "CmdPath", "EventPath", "ClusterPath", "EventFilter", "TimedReq", "Target"],
+      ∃ (k : Kind) (fs : List Field), named name = some ⟨k, fs.map .field⟩ ∧ (∀ f ∈ fs, f.tag < 256) ∧
+        (fs.map (·.tag)).Nodup := by
+  intro name hn
+  simp only [List.mem_cons, List.mem_nil_iff, or_false] at hn
+  rcases hn with rfl | rfl | rfl | rfl | rfl | rfl | rfl
+  · exact ⟨.list, [⟨0, .bool, true, false⟩, ⟨1, .u64, true, false⟩, ⟨2, .u16, true, false⟩, ⟨3, .u32, true, false⟩,
+      ⟨4, .u32, true, false⟩, ⟨5, .u16, true, true⟩], rfl, by decide, by decide⟩
+  · exact ⟨.list, [⟨0, .u16, true, false⟩, ⟨1, .u32, true, false⟩, ⟨2, .u32, true, false⟩], rfl, by decide, by decide⟩
+  · exact ⟨.list, [⟨0, .u64, true, false⟩, ⟨1, .u16, true, false⟩, ⟨2, .u32, true, false⟩, ⟨3, .u32, true, false⟩,
+      ⟨4, .bool, true, false⟩], rfl, by decide, by decide⟩
+  · exact ⟨.list, [⟨0, .u64, true, false⟩, ⟨1, .u16, false, false⟩, ⟨2, .u32, false, false⟩], rfl, by decide, by decide⟩
+  · exact ⟨.struct, [⟨0, .u64, true, false⟩, ⟨1, .u64, true, false⟩], rfl, by decide, by decide⟩
+  · exact ⟨.struct, [⟨0, .u16, false, false⟩, ⟨Consts.imRevisionTag, .u8, true, false⟩], rfl, by decide, by decide⟩
+  · exact ⟨.struct, [⟨0, .u32, true, false⟩, ⟨1, .u16, true, false⟩, ⟨2, .u32, true, false⟩], rfl, by decide, by decide⟩
+
+-- the hypothesis `toValue … = some v` is satisfiable: an `AttrPath` with an absent, a null and present fields
+example : ∃ v, toValue ⟨.list, [⟨0, .bool, true, false⟩, ⟨1, .u64, true, false⟩, ⟨5, .u16, true, true⟩].map .field⟩
+    [.bool true, .absent, .null] = some v ∧
+    decodeStruct ⟨.list, [⟨0, .bool, true, false⟩, ⟨1, .u64, true, false⟩, ⟨5, .u16, true, true⟩].map .field⟩ (encode v)
+      = .ok [.bool true, .absent, .null] :=
+  ⟨_, rfl, by decide⟩
+
+end derived
 
 end C16
